@@ -49,3 +49,25 @@ def check(ctx, rep, files=("src/haystack/defs/",)):
     if n == 0:
         rep.ok("R-DET", "order:no-order-sensitive-consumer-of-hash-iteration", "-", "no find / first / last / nth / take / min / max / fold ... is applied to a HashMap / HashSet iteration in %s" % (files,))
     return n
+
+
+
+def check_no_hidden_state(ctx, rep, files=("src/haystack/defs/",)):
+    """the two DashMap caches are the only state a query may leave behind (R-LOCK K3-K5 govern them): the query code uses no
+    thread-local and no other interior-mutable static - a `thread_local!` visited-set or memo that survives an early return makes
+    the next query on that thread answer differently"""
+    prog = ctx.prog
+    hits = []
+    for b in prog.bodies.values():
+        if not b.file.startswith(files) or "::test" in b.id:
+            continue
+        for bi, t in b.calls():
+            nm = strip_generics(mir.callee_name(t) or "")
+            if nm.startswith("std::thread::LocalKey::") or nm.startswith("std::thread::local::LocalKey::"):
+                hits.append((b, bi, nm))
+    if hits:
+        b, bi, nm = hits[0]
+        rep.bad("R-DET", "R-DET:hidden-state:%s" % strip_generics(b.rec.get("root", b.id)).split("::")[-1], b.where(bi), "%s keeps state in a thread-local (%s): what one query leaves there is seen by the next query on the same thread" % (strip_generics(b.rec.get("root", b.id)).split("::")[-1], nm.split("::")[-1]))
+    else:
+        rep.ok("R-DET", "hidden-state:none", "-", "no thread-local state in %s" % (files,))
+    return 1
